@@ -72,6 +72,7 @@ def aff_inputs(quick, rng):
            " 1 :  +2 , { -1 : \r 2\n:2}\n", "{1:2:3}:3:2", "3:4:-1,-1", "+ 1", "1:1:1:1", "{1,2,}", "{{2:3}}", "{1:0}", "1:-2", "{}",
            "++1", "+-+-1", "-9:1:-9", "{0:4}:3:4", "{1,}", "0:1048575", "0:1048576", "{0:1048576}"]
     ins += doc
+    ins += aff_grammar_inputs(1500 if quick else 20000, rng)
     for d in doc:
         for _ in range(8 if quick else 60):
             if not d:
@@ -80,6 +81,64 @@ def aff_inputs(quick, rng):
             c = rng.choice(alpha)
             ins.append(rng.choice([d[:i] + c + d[i:], d[:i] + d[i + 1:], d[:i] + c + d[i + 1:]]))
     return ins
+
+
+def aff_grammar_inputs(n, rng):
+    """random sentences of the documented grammar: intervals with and without count / stride, several of them
+    inside one pair of braces, braces with their own count / stride"""
+    def num(neg=False):
+        v = rng.choice([0, 1, 2, 3, 4, 5, 7, 11])
+        return ("-" if neg and rng.random() < 0.3 else "") + str(v)
+
+    def interval():
+        k = rng.randrange(4)
+        if k == 0:
+            return num()
+        if k == 1:
+            return "%s:%s" % (num(), rng.choice(["1", "2", "3", "4"]))
+        return "%s:%s:%s" % (num(), rng.choice(["1", "2", "3"]), rng.choice(["1", "2", "3", "-1", "-2", "4"]))
+
+    def item():
+        if rng.random() < 0.55:
+            body = "{" + ",".join(interval() for _ in range(rng.choice([1, 1, 2, 2, 3]))) + "}"
+            k = rng.randrange(3)
+            if k == 1:
+                body += ":" + rng.choice(["1", "2", "3"])
+            elif k == 2:
+                body += ":%s:%s" % (rng.choice(["1", "2", "3"]), rng.choice(["1", "2", "4", "-1", "-3"]))
+            return body
+        return interval()
+    out = []
+    for _ in range(n):
+        t = ",".join(item() for _ in range(rng.choice([1, 1, 2, 3])))
+        if rng.random() < 0.15:
+            i = rng.randrange(len(t) + 1)
+            t = t[:i] + " " + t[i:]
+        out.append(t)
+    return out
+
+
+def envg_lines(quick, rng):
+    M = 1 << 20
+    TS = ["-", "512", "1000", "16384", "65536", str(M), str(3 * M), str(16 * M), str(100 * M)]
+    SP = ["-", "1", "4096", str(M), str(8 * M), str(64 * M), str(200 * M)]
+    PG = ["-", "1", "4096", "5000", str(M), str(3 * M)]
+    MS = ["-", "0", "1", "2", "3", "8", "1000", "5000"]
+    MD = ["-", "0", "1", "7", "4096", "5001"]
+    HP = ["-", "1", "4096", str(2 * M), str(5 * M)]
+    lines = []
+    for ts in TS:                      # every pair (stack size, stack page size): the minimum of the second depends on the first
+        for sp in SP:
+            lines.append(" ".join([ts, sp, "-", "-", "-", "-"]))
+            lines.append(" ".join([ts, sp, rng.choice(PG), rng.choice(MS), rng.choice(MD), rng.choice(HP)]))
+    for ts in TS:
+        for ms in MS:
+            lines.append(" ".join([ts, "-", "-", ms, "-", "-"]))
+    for _ in range(600 if quick else 8000):
+        def r(lst):
+            return rng.choice(lst) if rng.random() < 0.6 else str(rng.randrange(0, rng.choice([10, 5000, 1 << 20, 1 << 28])))
+        lines.append(" ".join([r(TS), r(SP), r(PG), r(MS), r(MD), r(HP)]))
+    return lines
 
 
 def aff_big_inputs(rng):
@@ -153,6 +212,16 @@ def run(tier, seed):
         else:
             oracle(chk, "env", "EnvClamp.tla", ".EnvClamp.run.cfg", out, "environment setting not clamped / rounded / defaulted as documented", "env")
             chk.distinct.update(lines)
+        # 3b. settings whose limits depend on other settings, through ABTD_env_init()
+        lines = envg_lines(quick, rng)
+        fin, out = os.path.join(sdir, "envg.in"), os.path.join(sdir, "envg.ndjson")
+        open(fin, "w").write("\n".join(lines) + "\n")
+        r = run_func(exe, "envg", fin, out)
+        if r.returncode != 0:
+            chk.violation("envg:crash", "ABTD_env_init crashed (rc=%d): %s" % (r.returncode, r.stderr[-300:]), replay_content=r.stderr)
+        else:
+            oracle(chk, "envg", "EnvDerived.tla", "OneState.cfg", out, "derived environment setting (limit depending on another setting) differs from the specification", "envg")
+            chk.distinct.update("envg:" + x for x in lines)
         # 4. configuration maps: random and exhaustive operation sequences
         out = os.path.join(sdir, "cfg.ndjson")
         r = run_func(exe, "cfg", str(seed * 1000 + 1), out, extra=("300" if quick else "4000",))
